@@ -21,6 +21,23 @@
       context pending: only the top context is examined per event (`C15/top-only-stacked-contexts`).
       (`NoStackStrict`, used only for *which value* a deferred capture attaches, also excludes that situation at
       own `exception` events.)
+
+  Scope, stated as it is:
+  * `AllNamed cfg` — every method location has a name (the property's "method tracepoint with a method name").  A
+    nameless method location can say "here" at any kind of event and turns into a named one when it does (the
+    installed triggers are then state, `Trigger.runS`); all theorems about runs are about `Trigger.run` over fixed
+    triggers, which is the handler exactly under `AllNamed` (`C03.c03_run_faithful_partial`);
+    `c15_named_needed_witness`.
+  * `NoClash` is keyed by (file BASE name, `co_name`) — what the code compares.  It excludes recursion, but also: a
+    method calling a same-named method of another class in the same file (`A.__init__` → `B.__init__`, `run`,
+    `close` …), same-named functions in two files with the same base name (`pkg_a/utils.py`, `pkg_b/utils.py`)
+    calling one another, and nested `<lambda>` / `<genexpr>` / `<listcomp>` frames of one file.
+  * The configuration is fixed during a run (except for being emptied: `c15_completion_config_independent`): a
+    tracepoint ADDED while an invocation is running is not covered by these theorems.
+  * Callbacks may fail with an `Exception` (`c15_failed_callback_isolated_partial`); a BaseException from a callback
+    leaves `process` (`c15_base_failure_skips_rest_witness`), ends the event (catch-all of `trace_call`) and is outside
+    the theorems.
+  * `c15_thread_local` is definitional for the machine of all threads (a tripwire).
 -/
 import DeepModel.Proofs.Trigger
 
@@ -47,11 +64,11 @@ structure Completed (final : Option (List Ctx)) (w : List Eff) : Prop where
     and every forest of invocations satisfying the two hypotheses, a thread that starts with nothing pending ends
     with nothing pending, and every span / deferred capture it opened (method or line, any number per context) was
     completed exactly once, in LIFO order, at an event of its own invocation. -/
-theorem c15_partial (cfg : List Trig) (forest : List Inv) (k : Nat)
+theorem c15_partial (cfg : List Trig) (hnamed : AllNamed cfg) (forest : List Inv) (k : Nat)
     (hc : forestNoClash forest) (hs : forestNoStack (opens cfg) forest k) :
     Completed (run cfg none (flattenForest forest k)).1 (run cfg none (flattenForest forest k)).2 := by
   have hn : (none : Option (List Ctx)) = norm [] := rfl
-  obtain ⟨h1, h2⟩ := forest_frame (cfg.length : Int) (actionsFor cfg) (kindsOK_actionsFor cfg) forest k hc hs
+  obtain ⟨h1, h2⟩ := forest_frame (cfg.length : Int) (actionsFor cfg) (kindsOK_actionsFor cfg hnamed) forest k hc hs
   have hchk := chk_srun (cfg.length : Int) (actionsFor cfg) [] (flattenForest forest k)
   rw [h1] at hchk
   rw [run, hn, runWith_norm]
@@ -59,6 +76,15 @@ theorem c15_partial (cfg : List Trig) (forest : List Inv) (k : Nat)
   intro c
   have := chk_counts c [] [] _ hchk
   simpa using this
+
+/-- **`AllNamed` is needed** for the theorems as stated over fixed triggers: a nameless method location with a span on a
+    3-line module is "here" at the `line` AND at the `return` event of line 3 (the test ignores the event kind); over
+    fixed triggers the context pushed at the `return` event is never completed.  (In the handler the location has
+    become the named location of `<module>` by then: `Loc.settle`.) -/
+theorem c15_named_needed_witness :
+    (run (install [⟨.nameless "a.py" [("<module>", 0, 3)], [⟨0, .span⟩]⟩] []) none
+      ((Callbacks.Inv.mk "/x/a.py" "<module>" 1 1 [] (.line 1 [] (.line 2 [] (.line 3 [] .nil))) (.ret 3 0)).flatten [0])).1
+      ≠ none := by decide
 
 /-- **LIFO holds unconditionally** — for every stream at all (no hypothesis), the open/close effects of a run
     replay against the handler's own stack: contexts are only ever closed in LIFO order.  (What can fail without
@@ -135,20 +161,30 @@ theorem c15_completion_config_independent (cfg cfg' : List Trig) (s : List Ctx) 
   rw [hempty]
   simp [pcPhase, hk, ha]
 
-/-- **a failing completion is isolated** — `CallbackContext.process` (translated with its per-callback
-    `try/except Exception`): whichever of the callbacks of a context fail (`fails` arbitrary), `process` is called on
-    every callback of the context, once each, in order, and no exception leaves.  So `Eff.closed c ev` — "the
-    callbacks `c.cbs` were run at `ev`" — means the same under every fault assignment: a failing span close / push
-    does not change which other deferred items of the event are completed. -/
-theorem c15_failed_callback_isolated {β : Type} (fails : β → Bool) (cbs : List β) :
-    contextProcess fails cbs = (cbs, false) ∧
-    contextProcess fails cbs = contextProcess (fun _ => false) cbs := by
-  have h : ∀ (f : β → Bool) (l : List β), contextProcess f l = (l, false) := by
-    intro f l
-    induction l with
-    | nil => rfl
-    | cons c r ih => by_cases hc : f c = true <;> simp [contextProcess, hc, ih]
-  exact ⟨h fails cbs, by rw [h, h]⟩
+/-- **a failing completion is isolated** (partial: the failures are of class `Exception`) — `CallbackContext.process`,
+    translated with its per-callback `try/except Exception`: whichever callbacks of a context fail with an
+    `Exception`, `process` is called on every callback of the context, once each, in order, and no exception leaves.
+    So `Eff.closed c ev` — "the callbacks `c.cbs` were run at `ev`" — means the same under every such fault
+    assignment: a failing span close / push does not change which other deferred items of the event are completed. -/
+theorem c15_failed_callback_isolated_partial {β : Type} (fails : β → Option Py.Exn)
+    (hexc : ∀ b, fails b ≠ some Py.Exn.base) (cbs : List β) :
+    contextProcess fails cbs = (cbs, false) := by
+  induction cbs with
+  | nil => rfl
+  | cons c r ih =>
+    cases hc : fails c with
+    | none => simp [contextProcess, hc, ih]
+    | some e =>
+      cases e with
+      | exc => simp [contextProcess, hc, ih]
+      | base => exact absurd hc (hexc c)
+
+/-- the hypothesis is needed: a failure that is not an `Exception` (BaseException: SystemExit, KeyboardInterrupt,
+    GeneratorExit, a library's own BaseException subclass) at the first callback leaves `process`; the remaining
+    callbacks of the context are not run (and the context is already off the queue). -/
+theorem c15_base_failure_skips_rest_witness :
+    contextProcess (fun b => if b = 1 then some Py.Exn.base else none) [1, 2, 3] = ([1], true) ∧
+    contextProcess (fun b => if b = 1 then some Py.Exn.exc else none) [1, 2, 3] = ([1, 2, 3], false) := by decide
 
 /-- **the recursion hypothesis is needed** (D27) — `rec(2)` with a method span that fires once (the gate refuses
     the two inner calls): the tree violates `NoClash` only, and the span opened by invocation `[0]` is closed at
@@ -221,28 +257,90 @@ theorem c15_capture_kind (cfg : List Trig) (s : List Ctx) (ev : Event) (c : Ctx)
       · simp [hcb, hpc] at h
       · simp [hcb, hpc] at h
 
-/-- **captured value** (partial: `NoClash`, `NoStackStrict`) — an invocation whose `call` event opens a context (method
-    span / deferred method capture), run on any stack whose contexts belong to other functions (every nested
-    invocation of a `NoClash` tree is in that situation), hands the stack back unchanged, and the context is
-    completed at `firstExit`: the *first* own `exception` or `return` event of that same invocation.  So the value
-    attached to a deferred capture is the invocation's own return value (`c15_first_exit_return`), or its own
-    propagating exception, or — stated as it is — the first exception event seen in that frame even if the
-    function then catches it (inside the completion window). -/
-theorem c15_capture_value_partial (cfg : List Trig) (i : Inv) (p : List Nat) (stk : List Ctx)
-    (hc : i.NoClash) (hs : i.NoStackStrict (opens cfg) p) (hf : ∀ c ∈ stk, (c.file, c.func) ∉ i.keys)
-    (hopen : opens cfg (i.callEvent p) = true) :
-    (run cfg (norm stk) (i.flatten p)).1 = norm stk ∧
-    Eff.closed (newCtx (cbsAt (cfg.length : Int) (actionsFor cfg) (i.callEvent p)) (i.callEvent p)) (i.firstExit p)
-      ∈ (run cfg (norm stk) (i.flatten p)).2 := by
-  obtain ⟨h1, _, h3⟩ := inv_frame_strict (cfg.length : Int) (actionsFor cfg) (kindsOK_actionsFor cfg) i p stk hc hs hf
-  rw [run, runWith_norm, h1]
-  exact ⟨rfl, h3 hopen⟩
-
 def noCaught : Items → Prop
   | .nil => True
   | .line _ _ rest => noCaught rest
   | .caught _ _ _ => False
   | .call _ rest => noCaught rest
+
+theorem firstExit_noCaught (body : Items) (fi : FrameInfo) (x : Exit) (h : noCaught body) :
+    body.firstExit fi x =
+      match x with
+      | .ret n v => fi.ev "return" n v []
+      | .raise n e => fi.ev "exception" n e [] := by
+  match body with
+  | .nil => cases x <;> rfl
+  | .line n d rest => exact firstExit_noCaught rest fi x h
+  | .caught .. => exact absurd h (by simp [noCaught])
+  | .call i rest => exact firstExit_noCaught rest fi x h
+
+/-- **where a call-opened context completes** (partial: named locations, `NoClash`, `NoStackStrict`) — an invocation
+    whose `call` event opens a context (method span / deferred method capture), run on any stack whose contexts
+    belong to other functions (every nested invocation of a `NoClash` tree is in that situation), hands the stack
+    back unchanged, and the context is completed at `firstExit`: the *first* own `exception` or `return` event of
+    that same invocation — also when that is an exception the function then catches. -/
+theorem c15_capture_first_exit_partial (cfg : List Trig) (hnamed : AllNamed cfg) (i : Inv) (p : List Nat)
+    (stk : List Ctx) (hc : i.NoClash) (hs : i.NoStackStrict (opens cfg) p)
+    (hf : ∀ c ∈ stk, (c.file, c.func) ∉ i.keys) (hopen : opens cfg (i.callEvent p) = true) :
+    (run cfg (norm stk) (i.flatten p)).1 = norm stk ∧
+    Eff.closed (newCtx (cbsAt (cfg.length : Int) (actionsFor cfg) (i.callEvent p)) (i.callEvent p)) (i.firstExit p)
+      ∈ (run cfg (norm stk) (i.flatten p)).2 := by
+  obtain ⟨h1, _, h3⟩ :=
+    inv_frame_strict (cfg.length : Int) (actionsFor cfg) (kindsOK_actionsFor cfg hnamed) i p stk hc hs hf
+  rw [run, runWith_norm, h1]
+  exact ⟨rfl, h3 hopen⟩
+
+/-- the event at which an invocation ends: its `return` event carrying the return value, resp. its propagating
+    `exception` event carrying the exception -/
+def exitEvent (path func : String) (frame : Nat) (p : List Nat) : Exit → Event
+  | .ret n v => ⟨"return", path, n, func, v, frame, p, []⟩
+  | .raise n e => ⟨"exception", path, n, func, e, frame, p, []⟩
+
+/-- **captured value** (partial: named locations, `NoClash`, `NoStackStrict`, and `noCaught`: the invocation sees no
+    exception event of its own before it ends) — the context opened at the invocation's `call` event is completed at
+    the invocation's `return` event carrying its return value, resp. at its propagating `exception` event carrying
+    the exception: "a captured result is the value returned or the exception raised by that same invocation". -/
+theorem c15_capture_value_partial (cfg : List Trig) (hnamed : AllNamed cfg) (path func : String) (frame : Nat)
+    (ln : Int) (den : List Action) (body : Items) (x : Exit) (p : List Nat) (stk : List Ctx)
+    (hc : (Callbacks.Inv.mk path func frame ln den body x).NoClash)
+    (hs : (Callbacks.Inv.mk path func frame ln den body x).NoStackStrict (opens cfg) p)
+    (hnc : noCaught body)
+    (hf : ∀ c ∈ stk, (c.file, c.func) ∉ (Callbacks.Inv.mk path func frame ln den body x).keys)
+    (hopen : opens cfg ((Callbacks.Inv.mk path func frame ln den body x).callEvent p) = true) :
+    Eff.closed (newCtx (cbsAt (cfg.length : Int) (actionsFor cfg)
+        ((Callbacks.Inv.mk path func frame ln den body x).callEvent p))
+        ((Callbacks.Inv.mk path func frame ln den body x).callEvent p))
+      (exitEvent path func frame p x)
+      ∈ (run cfg (norm stk) ((Callbacks.Inv.mk path func frame ln den body x).flatten p)).2 := by
+  have h := (c15_capture_first_exit_partial cfg hnamed _ p stk hc hs hf hopen).2
+  have he : (Callbacks.Inv.mk path func frame ln den body x).firstExit p = exitEvent path func frame p x := by
+    simp only [Inv.firstExit]
+    rw [firstExit_noCaught body _ x hnc]
+    cases x <;> rfl
+  rw [he] at h
+  exact h
+
+/-- **`noCaught` is needed** (known finding `C15/caught-exception-completes`) — `f` has a deferred method capture,
+    calls `g`, which raises, catches the exception, goes on and returns 9: all other hypotheses hold, the capture
+    is completed at the CAUGHT `exception` event (arg 5) — not at `f`'s `return` event, whose value 9 is never
+    attached. -/
+def caughtCfg : List Trig := install [⟨.func "m.py" "f", [⟨0, .capture⟩]⟩] []
+def caughtTree : Inv :=
+  .mk "/app/m.py" "f" 1 1 [] (.line 2 [] (.call (.mk "/app/m.py" "g" 2 10 [] (.line 11 [] .nil) (.raise 11 5))
+    (.caught 2 5 (.line 3 [] (.line 4 [] .nil))))) (.ret 4 9)
+
+theorem c15_caught_witness :
+    caughtTree.NoClash ∧ caughtTree.NoStackStrict (opens caughtCfg) [0] ∧
+    Eff.closed ⟨"call", "m.py", 1, "f", [⟨0, .capture⟩], ⟨"call", "/app/m.py", 1, "f", 0, 1, [0], []⟩⟩
+        ⟨"exception", "/app/m.py", 2, "f", 5, 1, [0], []⟩ ∈ (run caughtCfg none (caughtTree.flatten [0])).2 ∧
+    Eff.closed ⟨"call", "m.py", 1, "f", [⟨0, .capture⟩], ⟨"call", "/app/m.py", 1, "f", 0, 1, [0], []⟩⟩
+        ⟨"return", "/app/m.py", 4, "f", 9, 1, [0], []⟩ ∉ (run caughtCfg none (caughtTree.flatten [0])).2 := by
+  refine ⟨?_, ?_, ?_, ?_⟩
+  · simp [caughtTree, Inv.NoClash, Items.NoClash, Items.keys, Inv.keys, fileOf, locationFromEvent, PyX.basename]
+  · simp only [caughtTree, Inv.NoStackStrict, Items.NoStackStrict]
+    decide
+  · decide
+  · decide
 
 /-- the strict hypothesis of `c15_capture_value_partial` is needed: `f` raises (and does not catch) with its method
     capture and a line span on the raising line both pending: the `exception` event completes the line span, the
@@ -265,32 +363,10 @@ theorem c15_capture_strict_witness :
   · decide
   · decide
 
-theorem firstExit_noCaught (body : Items) (fi : FrameInfo) (x : Exit) (h : noCaught body) :
-    body.firstExit fi x =
-      match x with
-      | .ret n v => fi.ev "return" n v []
-      | .raise n e => fi.ev "exception" n e [] := by
-  match body with
-  | .nil => cases x <;> rfl
-  | .line n d rest => exact firstExit_noCaught rest fi x h
-  | .caught .. => exact absurd h (by simp [noCaught])
-  | .call i rest => exact firstExit_noCaught rest fi x h
-
-/-- for an invocation that sees no exception before it ends, `firstExit` is its `return` event carrying its return
-    value, resp. its propagating `exception` event carrying the exception. -/
-theorem c15_first_exit_return (path func : String) (frame : Nat) (ln : Int) (den : List Action) (body : Items)
-    (x : Exit) (p : List Nat) (h : noCaught body) :
-    (Callbacks.Inv.mk path func frame ln den body x).firstExit p =
-      match x with
-      | .ret n v => (⟨"return", path, n, func, v, frame, p, []⟩ : Event)
-      | .raise n e => (⟨"exception", path, n, func, e, frame, p, []⟩ : Event) := by
-  simp only [Inv.firstExit]
-  rw [firstExit_noCaught body _ x h]
-  cases x <;> rfl
-
 /-! ### threads -/
 
-/-- **thread local** — an event of thread `u` changes no other thread's pending stack. -/
+/-- tripwire: **thread local** (definitional for the machine of all threads: one slot per thread; it breaks if the
+    translated handler ever reads another thread's state) — an event of thread `u` changes no other thread's pending stack. -/
 theorem c15_thread_local (cfg : List Trig) (S : Store) (u : Tid) (ev : Event) (t : Tid) (h : t ≠ u) :
     (stepG cfg S (u, ev)).1 t = S t := by
   simp [stepG, h]
@@ -307,24 +383,24 @@ theorem c15_interleaved (cfg : List Trig) (streams : Tid → List Event) (gs : L
 /-- exactly-once, window, LIFO and same-thread lift to every schedule: whatever the other threads do and however
     they are interleaved, a thread whose own stream is a forest satisfying the hypotheses completes all its work
     itself (the effects are *its* effects: `projEff t`), exactly once, in its own invocations. -/
-theorem c15_interleaved_complete (cfg : List Trig) (gs : List (Tid × Event)) (t : Tid)
+theorem c15_interleaved_complete (cfg : List Trig) (hnamed : AllNamed cfg) (gs : List (Tid × Event)) (t : Tid)
     (forest : List Inv) (k : Nat) (hproj : proj t gs = flattenForest forest k)
     (hc : forestNoClash forest) (hs : forestNoStack (opens cfg) forest k) :
     Completed ((runG cfg Store.empty gs).1 t) (projEff t (runG cfg Store.empty gs).2) := by
   obtain ⟨h1, h2⟩ := runG_proj cfg gs Store.empty t
   rw [h1, h2, hproj]
-  exact c15_partial cfg forest k hc hs
+  exact c15_partial cfg hnamed forest k hc hs
 
 /-- **nothing inherited** — when the threads' work has ended, a thread whose stream satisfied the hypotheses has
     left nothing pending, and a thread that has not run yet (a fresh thread: the store is keyed by the thread
     itself, `threading.local`) starts from the unset slot. -/
-theorem c15_nothing_inherited (cfg : List Trig) (gs : List (Tid × Event)) :
+theorem c15_nothing_inherited (cfg : List Trig) (hnamed : AllNamed cfg) (gs : List (Tid × Event)) :
     (∀ t forest k, proj t gs = flattenForest forest k → forestNoClash forest →
         forestNoStack (opens cfg) forest k → (runG cfg Store.empty gs).1 t = none) ∧
     (∀ t, proj t gs = [] → (runG cfg Store.empty gs).1 t = none) := by
   refine ⟨?_, ?_⟩
   · intro t forest k hp hc hs
-    exact (c15_interleaved_complete cfg gs t forest k hp hc hs).nothing_pending
+    exact (c15_interleaved_complete cfg hnamed gs t forest k hp hc hs).nothing_pending
   · intro t hp
     have := (runG_proj cfg gs Store.empty t).1
     rw [this, hp]
